@@ -442,6 +442,17 @@ def scenario_loop_without_body(exe, workroot):
     return False, 'mod_infinite_loop terminates on loop keywords without a body'
 
 
+def scenario_operator_type_words(exe, workroot):
+    """C02: the words of a conversion operator's type stay separate tokens"""
+    d = _tmp(workroot)
+    cfg = _cfg(d, 'sp_after_type = remove\n')
+    src = b'struct S { operator const char *() const; operator unsigned int() const; };\n'
+    rc, out, err = run(exe, ['-c', cfg, '-l', 'CPP', '-q'], stdin=src)
+    if rc == 0 and (b'constchar' in out or b'unsignedint' in out):
+        return True, 'sp_after_type=remove joins the words of a conversion operator type: %r' % out.strip()
+    return False, 'operator type words stay apart'
+
+
 def scenario_lang_leak(exe, workroot):
     d = _tmp(workroot)
     a, b = os.path.join(d, 'A.c'), os.path.join(d, 'B.c')
